@@ -283,6 +283,7 @@ impl Hooks for C09 {
             };
             let (leaf, keys) = vh::private_tree_view(w.g(i));
             let path = vh::direct_path_public(w.g(i), leaf);
+            let unmerged = vh::direct_path_unmerged(w.g(i), leaf);
             let cs = w.suite_of(w.parties[i].prov);
             let lvl = if i == info.committer { 0 } else { vh::tree_math::leaf_lca_level(leaf, info.committer_new_leaf) };
             for (pos, (node, pk)) in path.iter().enumerate() {
@@ -311,7 +312,18 @@ impl Hooks for C09 {
                             );
                         }
                     }
-                    (None, Some(_)) => w.out.cov.bump("entitled_key_not_held_informational"),
+                    (None, Some(_)) => {
+                        // a member is entitled to the key of every non-blank node of its direct path
+                        // at which it is not listed as unmerged
+                        if unmerged.get(pos).map(|u| u.contains(&leaf)).unwrap_or(false) {
+                            w.out.cov.bump("key_not_held_because_unmerged");
+                        } else {
+                            w.violate(
+                                format!("C09|entitled_key_not_held|{role}"),
+                                format!("member {i} ({role}, leaf {leaf}, lca level {lvl} with committer) holds no private key for node {node} (path position {pos}), which is not blank and does not list the member as unmerged"),
+                            );
+                        }
+                    }
                     (None, None) => {}
                 }
             }
